@@ -166,3 +166,12 @@ func handlerInvocations(fn *ssa.Function) []*ssa.Call {
 		return ok
 	})
 }
+
+// typeKey is the symbolic name of a library type ("inprocgrpc.Channel").
+func typeKey(nt *types.Named) string {
+	s := pkgSuffixOf(nt)
+	if s == "." {
+		s = "grpchan"
+	}
+	return s + "." + nt.Obj().Name()
+}
